@@ -249,7 +249,7 @@ class Repo:
 
     # ---- resolution
     def resolve(self, mod, name, _seen=None):
-        _seen = _seen or set()
+        _seen = _seen if _seen is not None else set()
         key = (mod.name, name)
         if key in _seen:
             return None
